@@ -217,9 +217,13 @@ int32_t tls13NewTicket(ssl_t *ssl,
       containing the PSK and the session parameters.
     */
 
+    /* The key list is shared with other threads: take the key name and
+       initialize the cipher context under the ticket key lock */
+    matrixSslLockSessionTicketKeys();
     key = ssl->keys->sessTickets;
     if (key == NULL)
     {
+        matrixSslUnlockSessionTicketKeys();
         psTraceErrr("Error: no session ticket keys loaded\n");
         tls13FreePsk(psk, ssl->hsPool);
         return PS_FAILURE;
@@ -229,6 +233,7 @@ int32_t tls13NewTicket(ssl_t *ssl,
     psDynBufAppendOctets(&buf, key->name, 16);
 
     psAesInitGCM(&ctx, key->symkey, key->symkeyLen);
+    matrixSslUnlockSessionTicketKeys();
     rc = psAesReadyGCMRandomIV(&ctx, iv, NULL, 0, NULL);
     if (rc < 0)
     {
